@@ -80,7 +80,11 @@ func init() {
 			mm := ugo.NewModuleMap()
 			mm.AddBuiltinModule("bm", map[string]ugo.Object{"i": ugo.Int(math.MinInt64), "f": ugo.Float(math.Copysign(0, -1)),
 				"s": ugo.String("\xff"), "b": ugo.Bytes{0}, "u": ugo.Uint(math.MaxUint64), "c": ugo.Char(-1), "t": ugo.True,
-				"a": ugo.Array{ugo.Int(1)}, "m": ugo.Map{"k": ugo.Undefined}, "fn": &ugo.Function{Name: "fn", Value: func(args ...ugo.Object) (ugo.Object, error) { return ugo.Int(7), nil }}})
+				"a": ugo.Array{ugo.Int(1)}, "m": ugo.Map{"k": ugo.Undefined}, "fn": &ugo.Function{Name: "fn", Value: func(args ...ugo.Object) (ugo.Object, error) { return ugo.Int(7), nil }},
+				// Go functions nested in container attributes
+				"sub": ugo.Map{"answer": &ugo.Function{Name: "answer", Value: func(args ...ugo.Object) (ugo.Object, error) { return ugo.Int(42), nil }},
+					"deep": ugo.Map{"f": &ugo.Function{Name: "f", Value: func(args ...ugo.Object) (ugo.Object, error) { return ugo.String("deep"), nil }}}},
+				"fns": ugo.Array{&ugo.Function{Name: "first", Value: func(args ...ugo.Object) (ugo.Object, error) { return ugo.Int(len(args)), nil }}}})
 			var src string
 			switch c.Pos {
 			case "main":
@@ -104,7 +108,7 @@ func init() {
 			case "closure-free":
 				src = pre + "x := " + lit + "\nf := func() { return x }\nreturn f()"
 			case "builtin-module":
-				src = pre + "bm := import(\"bm\")\nreturn [bm.i, bm.f, bm.s, bm.b, bm.u, bm.c, bm.t, bm.a, bm.m, bm.fn(), " + lit + "]"
+				src = pre + "bm := import(\"bm\")\nreturn [bm.i, bm.f, bm.s, bm.b, bm.u, bm.c, bm.t, bm.a, bm.m, bm.fn(), bm.sub.answer(), bm.sub.deep.f(), bm.fns[0](1, 2), " + lit + "]"
 			}
 			r := N{"tok": c.Tok, "pos": c.Pos, "src": src, "ok": true}
 			func() {
